@@ -183,6 +183,39 @@ func rulesC19(e *Engine, r *Report) {
 		}
 	}
 
+	// ---------------------------------------------------------------- R19.8 (encoder side)
+	for _, tn := range []string{"SourceConf", "TagConf"} {
+		fn := e.Fn("sts.(*" + tn + ").MarshalJSON")
+		if fn == nil {
+			continue
+		}
+		Instrs(fn, func(in ssa.Instruction) {
+			sto, ok := in.(*ssa.Store)
+			if !ok {
+				return
+			}
+			fa, ok := sto.Addr.(*ssa.FieldAddr)
+			if !ok || !strings.HasPrefix(e.Canon(fa.X), "&new(sts.aux") && !strings.HasPrefix(e.Canon(fa.X), "new(sts.aux") {
+				return
+			}
+			f := fieldVar(fa.X, fa.Field)
+			if f == nil {
+				return
+			}
+			if _, isSlice := f.Type().Underlying().(*types.Slice); !isSlice {
+				return
+			}
+			sl, isCut := sto.Val.(*ssa.Slice)
+			if !isCut || e.Canon(sl.X) == "p0."+f.Name() {
+				return
+			}
+			conds := e.domConds(in.Block())
+			ok2 := hasStr(conds, "(p0."+f.Name()+" != nil)") || hasStr(conds, "(0 < builtin(len)(p0."+f.Name()+"))") || hasStr(conds, "(builtin(len)(p0."+f.Name()+") != 0)")
+			r.Check(ok2, "R19.8", fmt.Sprintf("sts.(*%s).MarshalJSON: %s is cut out of the joined list only when the configuration has it", tn, f.Name()), e.InstrPos(in),
+				"an omitted `"+tagOfField(f)+"` (nil) is ENCODED as an empty list as soon as the neighbouring list is present: the client that parses the document takes it for an explicit empty list and does not inherit the preceding source's", 1, append([]string{e.Canon(sto.Val)}, conds...)...)
+		})
+	}
+
 	// ---------------------------------------------------------------- R19.6
 	r.Rule("R19.6", "like to like: what applyAux stores into field F of the configuration derives from field F of the parsed document (and, for constants, is chosen under a test of that field), and what MarshalJSON writes back into F derives from F of the configuration - never from a different option; where two lists are converted in one pass (include + ignore patterns) each side is cut out of the joined list at the length of the list that was put FIRST")
 	for _, p := range pairs {
@@ -270,9 +303,24 @@ func rulesC19(e *Engine, r *Report) {
 					var A, B string
 					for g1 := range vm {
 						for g2 := range vm {
-							if g1 != g2 && strings.Contains(val, "builtin(append)("+sd.src+g1+", "+sd.src+g2+")") {
+							if g1 != g2 && (strings.Contains(val, "builtin(append)("+sd.src+g1+", "+sd.src+g2+")") ||
+								pat("builtin(append)(builtin(append)(§, "+sd.src+g1+"), "+sd.src+g2+")").MatchString(val) ||
+								strings.Contains(val, ", "+sd.src+g1+"), "+sd.src+g2+")")) {
 								A, B = g1, g2
 							}
+						}
+					}
+					if A == "" && len(vm) == 2 && strings.HasPrefix(val, "phi(builtin(append)(phi#, [") {
+						// two accumulation loops, one per list: the list whose loop ran first is the innermost phi,
+						// i.e. the one mentioned LAST in the canonical string
+						var gs []string
+						for g := range vm {
+							gs = append(gs, g)
+						}
+						if strings.LastIndex(val, sd.src+gs[0]+"[") > strings.LastIndex(val, sd.src+gs[1]+"[") {
+							A, B = gs[0], gs[1]
+						} else {
+							A, B = gs[1], gs[0]
 						}
 					}
 					okCut := false
@@ -575,6 +623,34 @@ func rulesC19(e *Engine, r *Report) {
 		n := e.Guarded(r, "R19.11", "reflectutil.CopyStruct: a field is overwritten only when it is zero", fn, e.instrMatch("call(reflect.(Value).Set)(§)"), cls,
 			func(l LabelSet) bool { return l.Has("zero") }, "IsZero(target field)")
 		r.Min("R19.11", "field assignments in CopyStruct", n, 1)
+	}
+	// ---------------------------------------------------------------- R19.12
+	r.Rule("R19.12", "reading a configuration does not write to it: inherited slice options share one backing array across sources (and the two pattern lists of a source are cut out of one array), so no function of the configuration package appends to a slice FIELD of a configuration struct - `append(conf.X, …)` writes into the spare capacity, i.e. into a sibling's list - and the lists cut out of a joined array are cut with a capacity limit")
+	{
+		n := 0
+		for _, fn := range e.FuncsIn("sts") {
+			if p := fnPkg(fn); p == nil || p.Path() != "github.com/arm-doe/sts" {
+				continue
+			}
+			Instrs(fn, func(in ssa.Instruction) {
+				c, ok := in.(*ssa.Call)
+				if !ok {
+					return
+				}
+				b, isB := c.Call.Value.(*ssa.Builtin)
+				if !isB || b.Name() != "append" || len(c.Call.Args) == 0 {
+					return
+				}
+				first := e.Canon(c.Call.Args[0])
+				if !pat("p«[0-9]+».«[A-Za-z]+»").MatchString(first) {
+					return
+				}
+				n++
+				r.Bad("R19.12", e.ShortName(fn)+": append("+first+", …)", e.InstrPos(in),
+					"append onto a slice field of the configuration: when the field was inherited from (or cut out of one array with) another list, the spare capacity it writes into IS that other list - encoding or re-reading a configuration then changes a sibling source's patterns", 1, e.InstrStr(in))
+			})
+		}
+		r.Ok("R19.12", "sts: appends onto configuration slice fields", "", 1+n, fmt.Sprintf("%d found", n))
 	}
 }
 
